@@ -141,25 +141,34 @@ def gen_eventual(out):
         out.append("Definition ev_catch : bool := false.  (* the call is no longer wrapped in try/except *)")
     else:
         raise U("_turn: unexpected loop body")
-    # observers
+    # observers: how the flush Deferreds are fired after the batch
+    out.append("Inductive firemode := FireWhileEmpty | FireAllIfEmpty | FireAllAlways.")
+    after = body[idx_for[0] + 1:]
     fire = None
-    for i in idx_if:
-        if "_flushObservers" in ast.unparse(body[i]):
-            fire = body[i]
-            fi = i
-    tail_src = None
-    if fire is not None:
-        if ast.unparse(fire.test) != "not self._events" or fire.orelse or fi < idx_for[0]:
+    fi = None
+    for k, st_ in enumerate(after):
+        if "_flushObservers" in ast.unparse(st_):
+            fire = st_
+            fi = idx_for[0] + 1 + k
+            break
+    if fire is None:
+        raise U("_turn no longer fires the flush observers")
+    rest_after = body[fi:]
+    old_block = [S("observers, self._flushObservers = self._flushObservers, []"), S("for o in observers:\n    o.callback(None)")]
+    if isinstance(fire, ast.While):
+        if ast.unparse(fire) != S("while self._flushObservers and not self._events:\n    self._flushObservers.pop(0).callback(None)") \
+                or len(rest_after) != 1:
+            raise U("_turn: unexpected observer loop %r" % ast.unparse(fire))
+        out.append("Definition ev_fire_mode : firemode := FireWhileEmpty.   (* while self._flushObservers and not self._events: self._flushObservers.pop(0).callback(None) *)")
+    elif isinstance(fire, ast.If):
+        if ast.unparse(fire.test) != "not self._events" or fire.orelse or [ast.unparse(x) for x in fire.body] != old_block \
+                or len(rest_after) != 1:
             raise U("_turn: observers are fired under %s" % ast.unparse(fire.test))
-        tail = fire.body
-        out.append("Definition ev_fire_requires_empty : bool := true.   (* if not self._events: fire observers *)")
+        out.append("Definition ev_fire_mode : firemode := FireAllIfEmpty.   (* if not self._events: fire every observer *)")
+    elif [ast.unparse(x) for x in rest_after] == old_block:
+        out.append("Definition ev_fire_mode : firemode := FireAllAlways.")
     else:
-        tail = body[idx_for[0] + 1:]
-        out.append("Definition ev_fire_requires_empty : bool := false.")
-    tail_src = [ast.unparse(s) for s in tail]
-    if tail_src != [S("observers, self._flushObservers = self._flushObservers, []"),
-                    S("for o in observers:\n    o.callback(None)")]:
-        raise U("_turn: observers are fired by %r" % (tail_src,))
+        raise U("_turn: observers are fired by %r" % ([ast.unparse(x) for x in rest_after],))
     # ---- batch-in-progress mark (self._in_turn = True before the loop, = False after it, before the observers)
     idx_on = [i for i, s in enumerate(body) if ast.unparse(s) == "self._in_turn = True"]
     idx_off = [i for i, s in enumerate(body) if ast.unparse(s) == "self._in_turn = False"]
@@ -170,7 +179,7 @@ def gen_eventual(out):
             raise U("__init__ no longer contains " + need)
     uses_mark = "_in_turn" in ast.unparse(P.find_class(mod, "_SimpleCallQueue"))
     if len(idx_on) == 1 and len(idx_off) == 1 and idx_on[0] < idx_for[0] < idx_off[0] \
-            and (fire is None or idx_off[0] < fi) and "self._in_turn = False" in init_src \
+            and idx_off[0] < fi and "self._in_turn = False" in init_src \
             and ast.unparse(tn).count("_in_turn") == 2:
         out.append("Definition ev_turn_marks_batch : bool := true.   (* self._in_turn = True / False around the batch loop *)")
     elif not idx_on and not idx_off and "_in_turn" not in ast.unparse(tn):
